@@ -36,7 +36,9 @@ type PropConfig struct {
 	// accessors of keyed shared state (short key -> why): the rule does not look inside them, but each must be
 	// verified in the same run against a contract with a frame check (its clauses say which entries it touches)
 	ReceiverFrameAccessors map[string]string `json:"receiver_frame_accessors"`
-	PathAxioms             map[string]int    `json:"path_axioms"` // tier -> maximum number of path components
+	// regexps on short keys: handlers whose events must take their addresses from the handler's own connection
+	EventAddress []string       `json:"event_address"`
+	PathAxioms   map[string]int `json:"path_axioms"` // tier -> maximum number of path components
 	// returns that are unreachable under the contracts' assumptions, each reviewed and explained; any
 	// other unreachable return is reported as a vacuity violation
 	ExpectedDead map[string]string `json:"expected_dead"`
@@ -249,6 +251,12 @@ func cmdCheck(args []string) {
 				if re.MatchString(sk) {
 					all = append(all, L.receiverFrame(fn, cfg.ReceiverFrameAccessors)...)
 					all = append(all, L.globalFrame(fn, cfg.ReceiverFrameAccessors)...)
+					for _, ea := range cfg.EventAddress {
+						if m, _ := regexp.MatchString("^(?:"+ea+")$", sk); m {
+							all = append(all, L.eventAddrRule(fn)...)
+							break
+						}
+					}
 					cnt++
 					break
 				}
